@@ -205,6 +205,13 @@ def work(task):
                 heads[0].delete()
             elif hist == "insert":
                 body.append(Header(2, "added"))
+            elif hist.startswith("outline="):
+                # the requested outline level is changed through the property between two fills
+                outline = int(hist.split("=")[1])
+                toc.outline_level = outline
+                if int(toc.outline_level or 0) != outline:
+                    fails.append({"signature": f"site=TOC.outline_level; class={cls}; symptom=setter-not-read-back",
+                                  "replay": {"replay_module": "mc.checks.c20", **detail, "history": ["fill", hist], "oracle": "outline_level read back", "expected": outline, "actual": toc.outline_level}})
             toc.fill()
             nev += 1
             new_levels = [int(h.level) for h in body.get_headers()]
@@ -307,6 +314,13 @@ def tasks_for(tier):
                     for kd in ("plain", "ws", "span", "note", "lb", "note-in-span", "annotation-in-link"):
                         for hist in (None, "edit-text", "edit-level", "delete", "insert"):
                             out.append((levels, tuple(kd for _ in range(n)), outline, pos, hist))
+    # the outline level changed through the TOC.outline_level property between two fills (every pair of levels)
+    for n in range(0, 4):
+        for levels in itertools.product(LV, repeat=n):
+            for outline in (0, 1, 2, 3, 10):
+                for new in (0, 1, 2, 3, 10):
+                    if new != outline:
+                        out.append((levels, tuple("plain" for _ in range(n)), outline, "first", f"outline={new}"))
     # headings inside sections, list items, table cells (every level sequence <= 3, two outline levels)
     for n in range(1, 4):
         for levels in itertools.product(LV[:3], repeat=n):
